@@ -1088,8 +1088,13 @@ pub fn repeat_storms(ctx: &Ctx, want: &str) -> Report {
     }
     let mut jobs: Vec<(u64, u8)> = Vec::new();
     for c in &counts {
-        for kind in 0..4u8 {
-            if *c >= 1 << 31 && kind >= 2 {
+        for kind in 0..5u8 {
+            // the 2^32 storms: retrigger mode with a key held from the start (kind 0) and a key struck shortly
+            // before the count is reached (kind 4)
+            if *c >= 1 << 31 && !(kind == 0 || kind == 4) {
+                continue;
+            }
+            if kind == 4 && (*c == 254 || *c == 255 || *c == 257 || *c == 65_535 || *c == 65_537 || *c == (1u64 << 32) - 1) {
                 continue;
             }
             jobs.push((*c, kind));
@@ -1103,16 +1108,30 @@ pub fn repeat_storms(ctx: &Ctx, want: &str) -> Report {
         let (drone, key) = (40 + r.below(20) as u8, 70 + r.below(20) as u8);
         let mut e = Emit::new();
         e.ops.push(Op::Retrigger(kind % 2 == 0));
-        e.ops.push(Op::Priority(r.below(3) as u8));
+        // Last priority for the note patterns of the largest counts (a strike-order stamp would wrap there)
+        e.ops.push(Op::Priority(if n >= 1 << 31 || kind == 4 { 0 } else { (j % 3) as u8 }));
         e.msg(0x90 | ch, &[drone, 90], false);
         e.ops.push(Op::PollRising);
         e.ops.push(Op::PollFalling);
         let pattern: Vec<u8> = match kind {
-            0 | 1 => vec![0x90 | ch, key, 100, 0x80 | ch, key, 0],
+            0 | 1 | 4 => vec![0x90 | ch, key, 100, 0x80 | ch, key, 0],
             2 => vec![0x90 | ch, key, 100, key, 0],                              // running status, velocity-0 release
             _ => vec![0xB0 | ch, 1, 10, 1, 20, 0xE0 | ch, 5, 6, 0xB0 | ch, 7, 3], // controllers and pitch bend
         };
-        e.ops.push(Op::Repeat(pattern, n));
+        if kind == 4 {
+            // almost n note-ons, then a second key struck and held, then enough further note-ons to pass n:
+            // whatever orders the held notes must still put the newest strike last
+            let late = drone + 7;
+            let before = n.saturating_sub(40);
+            e.ops.push(Op::Repeat(pattern.clone(), before));
+            e.msg(0x90 | ch, &[late, 77], false);
+            e.ops.push(Op::Repeat(pattern.clone(), 100));
+            e.msg(0x90 | ch, &[key, 64], false);
+            e.msg(0x80 | ch, &[key, 0], false);
+            e.msg(0x80 | ch, &[late, 0], false);
+        } else {
+            e.ops.push(Op::Repeat(pattern, n));
+        }
         e.ops.push(Op::PollRising);
         e.ops.push(Op::PollFalling);
         e.ops.push(Op::PollRising);
